@@ -643,7 +643,7 @@ func (w *c04World) begin(qn int) string {
 		// from the back-off call after the failed attempt to the worker entering the handler again
 		gap = ent.at.Sub(lf.at).Nanoseconds()
 	}
-	w.c.Oracle(fmt.Sprintf("begin q=%d task=%d gap=%d", qn, id, gap))
+	w.c.Oracle(fmt.Sprintf("begin q=%d task=%d gap=%d ctxs=%s", qn, id, gap, w.hookCtxs(run.start.ctxs)))
 	if strings.Contains(head.ctxs, ":0:") {
 		w.c.Note("begin:synchronization-run")
 		if head.group == "" && head.bt == htypes.OnKubernetesEvent && strings.Contains(strings.SplitN(head.ctxs, ";", 2)[0], ":0:") {
